@@ -42,6 +42,14 @@ static struct S40 ret_S40(void) { struct S40 s = {{1, 2, 3, 4, 5}}; return s; }
 static struct SL ret_SL(void) { struct SL s = {6.5L, 7}; return s; }
 static void ret_void(void) { }
 static long many(long a, long b, long c, long d, long e, long f, long g, long h, long double x, double y, struct S40 s) { return a + h + s.a[4] + (long)x + (long)y; }
+struct S300 { int a[75]; };
+static long gacc;
+static long take_big(void *p, struct S300 b) { long r = p != 0; for (int i = 0; i < 75; i++) r += b.a[i] * (i + 1); return r; }
+static long sum40(void *p, long a1, long a2, long a3, long a4, long a5, long a6, long a7, long a8, long a9, long a10, long a11, long a12, long a13, long a14, long a15, long a16,
+                  long a17, long a18, long a19, long a20, long a21, long a22, long a23, long a24, long a25, long a26, long a27, long a28, long a29, long a30, long a31, long a32,
+                  long a33, long a34, long a35, long a36, long a37, long a38, long a39) {
+  return (p != 0) + a1 + 2 * a2 + a3 + a4 + a5 + a6 + 7 * a7 + a8 + a9 + a10 + a11 + a12 + a13 + a14 + a15 + a16 + a17 + a18 + a19 + 20 * a20 + a21 + a22 + a23 + a24 + a25 + a26 + a27 + a28 + a29 +
+         a30 + a31 + a32 + a33 + a34 + a35 + a36 + a37 + 38 * a38 + 39 * a39; }
 static void chk(long id, long double ld, double d, long i) { OUT(id, &ld, 10); OUT(id, &d, 8); OUTV(id, i); }
 '''
 
@@ -76,7 +84,10 @@ def forms_for(cn, t):
     F.append(('stmt-expr-discard', '({ x; }); ({ ret_%s(); });' % t))
     F.append(('stmt-expr-used', 'y = ({ z = x; x; });'))
     F.append(('call-many-args', 'many(1, 2, 3, 4, 5, 6, 7, 8, 9.5L, 10.5, ret_S40()); k = many(1, 2, 3, 4, 5, 6, 7, 8, 1.0L, 2.0, s40) > 0;'))
-    F.append(('alloca-mixed', '{ char *q = alloca(24); q[0] = 1; x; ret_%s(); y = x; }' % t if False else 'x; ret_%s(); y = x;' % t))
+    F.append(('alloca-mixed', 'if (i < 40) { char *q = alloca(24); q[0] = 1; x; ret_%s(); gacc = q[0]; }' % t))
+    # alloca() evaluated while 300 bytes of struct argument / 34 stack arguments are already pushed: the pending temporaries must move with the stack pointer
+    F.append(('alloca-under-pending-args', 'if (i < 40) { gacc = take_big(alloca(64), s300); gacc += sum40(alloca(32), %s); }' % ', '.join(str(j) for j in range(1, 40))))
+    F.append(('alloca-under-pending-values', 'if (i < 40) { gacc = many(1, 2, 3, 4, 5, 6, 7, (long)alloca(8) != 0, 9.5L, 10.5, ret_S40()) + ((long)alloca(16) != 0) * 3; }'))
     if agg:
         F.append(('member-of-call', 'ret_%s().a;' % t if t != 'S40' else 'ret_S40().a[2];'))
         F.append(('member-discard', 'x.a; y.a = x.a;' if t != 'S40' else 'x.a[1]; y.a[1] = x.a[1];'))
@@ -88,6 +99,7 @@ def forms_for(cn, t):
             F.append(('compound-assign', 'y = x; y += x; y -= x;'))
             F.append(('incdec', 'y = x; y++; ++y; y--; --y;' if t != 'bool' else 'y = x;'))
             F.append(('cast-chain', '(long)x; (double)x; (long double)x; (float)x; (char)x; (_Bool)x;'))
+            F.append(('cast-chain-2', '(short)x; (unsigned short)x; (int)x; (unsigned)x; (unsigned char)x; (unsigned long)x; (signed char)x; k = (short)x + (unsigned short)x + (int)x + (unsigned char)x;'))
             F.append(('cond-cond', 'if (x) k = 1; else k = 2; while (x && k > 5) k--; k = x ? 3 : 4; k = !x;'))
             F.append(('arg-mixed', 'many(x, x, x, x, x, x, x, x, x, x, s40);'))
         if t in ('i32', 'u64', 'i8', 'u16'):
@@ -97,9 +109,9 @@ def forms_for(cn, t):
 
 def unit(k, cn, t, name, body):
     """One test function t<k>(n): loop of the form, then checks that later long double / double / integer computations still work."""
-    decls = [var_decl(cn, t, 'x', 5), var_decl(cn, t, 'y', 6), var_decl(cn, t, 'z', 7), 'int k = 1;', 'struct S40 s40 = {{1, 2, 3, 4, 5}};',
+    decls = [var_decl(cn, t, 'x', 5), var_decl(cn, t, 'y', 6), var_decl(cn, t, 'z', 7), 'int k = 1;', 'struct S40 s40 = {{1, 2, 3, 4, 5}};', 'struct S300 s300; for (int j = 0; j < 75; j++) s300.a[j] = j * 3 + 1; gacc = 0;',
              'volatile long double l1 = 1.25L, l2 = 2.5L; volatile double d1 = 0.5, d2 = 4.0; volatile long i1 = 11;']
-    fn = 'static void t%d(long n) {\n%s\nfor (long i = 0; i < n; i++) {\n%s\n}\nchk(%d, l1 * l2 + (l1 - l2) / l2, d1 * d2 - d1, i1 * 3 + k * 0);\n' % (k, '\n'.join(decls), body, k)
+    fn = 'static void t%d(long n) {\n%s\nfor (long i = 0; i < n; i++) {\n%s\n}\nchk(%d, l1 * l2 + (l1 - l2) / l2, d1 * d2 - d1, i1 * 3 + k * 0 + gacc);\n' % (k, '\n'.join(decls), body, k)
     # value visible after the loop (idempotent forms -> independent of n)
     if t.startswith('S'):
         fn += {'S8': 'OUTV(%d, y.a); OUTV(%d, y.b);', 'S16': 'OUTV(%d, y.a); OUT(%d, &y.b, 8);', 'SF': 'OUT(%d, &y.a, 4); OUT(%d, &y.c, 4);', 'S40': 'OUTV(%d, y.a[0]); OUTV(%d, y.a[4]);', 'SL': 'OUT(%d, &y.a, 10); OUTV(%d, y.b);'}[t] % (k, k) + '\n'
